@@ -93,8 +93,13 @@ func VP_C15_roundtrip() {
 	m.Version, m.Notice = "001.002", "Copyright (c) 2024 Test Foundry"
 	m.ItalicAngle = -12.5
 	m.UnderlinePosition, m.UnderlineThickness = -100, 50
-	if vpChoose("optional-texts", 2) == 1 {
+	switch vpChoose("optional-texts", 4) { // each optional header text present or absent on its own
+	case 1:
 		m.Version, m.Notice = "", ""
+	case 2:
+		m.Version = ""
+	case 3:
+		m.Notice = ""
 	}
 	big := func(tag string) float64 {
 		v := vpInt32(tag)
